@@ -139,7 +139,7 @@ def flo_script(case, acts):
                 L.append("      go %s" % far)
     writer("wa", "wa")
     L += ["", "  framer obs be active first o", "    frame o", "      do fb obs",
-          "      go fin if recurred >= %d" % n, "    frame fin", "      bid stop all", ""]
+          ""]
     return "\n".join(L)
 
 
@@ -459,7 +459,7 @@ class CHECK(core.Check):
 
         def observe(store):
             obs.append("%s%s" % (rd.active.name if rd.active else "?", "*" if rd.recurred == 0 else "."))
-        flob.run(sk, obs=observe, acts=acts)
+        flob.run(sk, obs=observe, acts=acts, nticks=len(case["ticks"]))
         return [" ".join(obs)]
 
     def oracle(self, case, out):
